@@ -101,6 +101,30 @@ pub fn suites(check: &str, thorough: bool) -> (Vec<SeqSuite>, String) {
                 ctor: A,
                 observe: true,
             });
+            // the sync side with timed calls and the iterator, deeper
+            v.push(SeqSuite {
+                name: "c18-sync",
+                alphabet: vec![
+                    Op::TrySend,
+                    Op::TrySendO,
+                    Op::SendT(1),
+                    Op::SendOT(0),
+                    Op::TryRecv,
+                    Op::RecvT(1),
+                    Op::Next,
+                    Op::Drain(VecState::Prefilled),
+                    Op::NewHandle(Side::S, Conv::Clone),
+                    Op::DropHandle(Side::S),
+                    Op::DropHandle(Side::R),
+                    Op::Close(Side::S),
+                ],
+                depth: if thorough { 6 } else { 5 },
+                caps: caps4.clone(),
+                flavours: vec![(S, S)],
+                class: Class::DL,
+                ctor: S,
+                observe: true,
+            });
             (v, "every sequence of public API calls of one thread up to length 3 (thorough 4) over the full alphabet (all send / receive / try / realtime / zero- and one-tick timed calls, drain into three vector states, iterator, single polls of two send/receive future slots and a stream with two wakers, future drops, clone / clone_other / convert / drop of handles, close) with every observer (len, is_empty, is_full, capacity, is_bounded, counts, is_closed, is_disconnected, is_terminated) read after every step, capacities {0,1,2,unbounded}, all four flavour assignments; plus length 5 (thorough 6) over the value-moving core; each sequence executed on the real code and compared step by step with the reference model".into())
         }
         "C12" => (
